@@ -17,12 +17,14 @@ except OSError:
 
 def main():
     props = [json.loads(l) for l in open(os.path.join(VERIF, "properties.jsonl"))]
+    # Only checks that the lead has validated on the unchanged tree are claimed.
+    claimed = set(open(os.path.join(VERIF, "claimed.txt")).read().split())
     checks = []
     na = []
     for p in props:
         pid = p["id"]
         modpath = os.path.join(VERIF, "checks", pid.lower() + ".py")
-        if not os.path.exists(modpath) or pid in NOT_APPLICABLE:
+        if not os.path.exists(modpath) or pid in NOT_APPLICABLE or pid not in claimed:
             na.append({"property_id": pid, "reason": NOT_APPLICABLE.get(
                 pid, "check not built yet in this round (design in DESIGN.md section 3); not claimed until it exists")})
             continue
